@@ -123,6 +123,26 @@ Proof.
   cbn [f_new]. constructor; [exact Ec|apply IH; assumption].
 Qed.
 
+(* a successful computation on a finite factor matrix is stored, for every factor in front of the one (if any)
+   at which the PreconditionerValueError is raised - whatever the other factors of the block did *)
+Lemma run_factors_success_stored tk fi : forall fs k j f, nth_error fs j = Some f -> facts_ok fs ->
+  rout (fi (k + j)) = Success -> fm_finite (fi (k + j)) = true ->
+  match first_bad fi k (length fs) with Some k' => k + j < k' | None => True end ->
+  nth_error (f_new (run_factors tk k fs fi)) j = Some {| tok := tk; finite := true |}.
+Proof.
+  induction fs as [|f0 fs IH]; intros k j f H Hok Hs Hfm Hb; [destruct j; discriminate|].
+  inversion Hok as [|? ? Hf0 Hfs]; subst.
+  cbn [run_factors]. unfold first_bad in Hb. cbn [length seq find] in Hb. destruct j as [|j].
+  - rewrite Nat.add_0_r in *. rewrite Hfm, Hs. cbn. reflexivity.
+  - destruct (bad_at fi k) eqn:Eb; [lia|].
+    unfold bad_at in Eb. apply orb_false_iff in Eb as [E1 E2]. apply negb_false_iff in E1. rewrite E1. cbn [negb].
+    assert (Hc : finite (candidate tk f0 (rout (fi k))) = true).
+    { destruct (rout (fi k)); cbn in *; try discriminate; auto. }
+    rewrite Hc. cbn [negb f_new nth_error]. cbn in H.
+    rewrite Nat.add_succ_r in Hs, Hfm, Hb.
+    apply (IH (S k) j f H Hfs); [exact Hs|exact Hfm|exact Hb].
+Qed.
+
 (* a failing computation leaves the stored matrix as it was *)
 Lemma run_factors_fail_keeps tk fi : forall fs k j f, nth_error fs j = Some f ->
   rout (fi (k + j)) = Fail -> nth_error (f_new (run_factors tk k fs fi)) j = Some f.
@@ -848,6 +868,30 @@ Proof.
   intros Hb rh i. unfold out_r.
   rewrite (step_pve_iff c (state_r c rh) i (inv_state_r c rh) b k) by (now rewrite length_state_r).
   now rewrite refresh_of_state_r, nfacts_state_r.
+Qed.
+
+(* conversely every successful computation the loop got to is stored: the factor's matrix afterwards is the fresh
+   one, independently of what the other factors of the block did in the same refresh.  `warn_limit` is the number of
+   factors of the block the loop handled before a PreconditionerValueError (all of them if there was none) *)
+Theorem success_is_stored c b k : b < nb c -> k < nf c b -> forall rh i,
+  refresh_step c rh i = true -> present (i b) = true -> reached b (out_r c rh i) = true ->
+  k < warn_limit b (nf c b) (out_r c rh i) ->
+  rout (fin (i b) k) = Success -> fm_finite (fin (i b) k) = true ->
+  nth_error (facts_of (state_r c (i :: rh)) b) k = Some {| tok := S (length rh); finite := true |}.
+Proof.
+  intros Hb Hk rh i Hr Hp Hre Hl Hs Hfm.
+  pose proof (inv_state_r c rh) as Hinv.
+  assert (Hlen : b < length (blocks (state_r c rh))) by (now rewrite length_state_r).
+  destruct (blocks_lookup c (state_r c rh) Hinv b Hlen) as [sb [E Hok]].
+  cbn [state_r]. rewrite (step_facts c (state_r c rh) i Hinv b sb E).
+  rewrite refresh_of_state_r, tick_state_r, Hr, Hp. fold (out_r c rh i). rewrite Hre. cbn [andb].
+  assert (Hn : length (facts sb) = nf c b).
+  { rewrite <- (nfacts_state_r c rh b). unfold facts_of. now rewrite (proj_of_nth facts [] _ b _ E). }
+  destruct (nth_error (facts sb) k) as [f|] eqn:Ef; [|apply nth_error_None in Ef; lia].
+  apply (run_factors_success_stored (S (length rh)) (fin (i b)) (facts sb) 0 k f Ef Hok); auto.
+  rewrite Hn. destruct (first_bad (fin (i b)) 0 (nf c b)) as [k'|] eqn:Efb; [|exact I].
+  assert (Ho : out_r c rh i = RaisePVE b k') by (apply (pve_iff c b k' Hb rh i); auto).
+  rewrite Ho in Hl. cbn in Hl. rewrite Nat.eqb_refl in Hl. exact Hl.
 Qed.
 
 Lemma first_bad_some fi n k : k < n -> bad_at fi k = true -> first_bad fi 0 n <> None.
